@@ -282,7 +282,12 @@ class LRI(dict):
             self._init_ll()
 
     def copy(self):
-        return self.__class__(max_size=self.max_size, values=self)
+        # snapshot under the lock, oldest to newest, straight from the
+        # linked list: no hit/miss accounting, no reordering of self, and
+        # the copy ends up with the same eviction order.
+        with self._lock:
+            items = self._get_flattened_ll()[1:]
+        return self.__class__(max_size=self.max_size, values=items)
 
     def setdefault(self, key, default=None):
         with self._lock:
